@@ -1012,7 +1012,7 @@ static void run_pass(const Plan &p, uint64_t fail_at, uint64_t *allocs_out) {
 	if (!stop()) {
 		if (prop == "C12") G.nontrivial = G.nontrivial || (run.ops >= 10 && run.maxchains >= 3);
 		else if (prop == "C13") G.nontrivial = G.nontrivial || run.cb_both > 0 || G.cnt.count("probe.deferred-aggregated");
-		else if (prop == "C14") G.nontrivial = G.nontrivial || (fail_at && run.fail_inside_op);
+		else if (prop == "C14" || prop == "C08") G.nontrivial = G.nontrivial || (fail_at && run.fail_inside_op);
 		else if (prop == "C15") G.nontrivial = G.nontrivial || (run.ref_reads > 0 && run.cleanups_seen > 0);
 		else if (prop == "C16") G.nontrivial = G.nontrivial || run.partials > 0;
 		else G.nontrivial = G.nontrivial || run.ops >= 10;
@@ -1053,6 +1053,7 @@ static void generate(Plan &p, Rng &r) {
 	else if (r.chance(0.1)) p.cfg["deferred"] = r.below(16);
 	if (p.cfg["deferred"]) p.cfg["use_base"] = 1;
 	if (prop == "C14") { p.cfg["alloc_sweep"] = 1; p.cfg["fail_sticky"] = r.chance(0.25); }
+	if (prop == "C08") { p.cfg["alloc_sweep"] = 1; p.cfg["fail_sticky"] = r.chance(0.25); p.cfg["locking"] = 1; }	// every error path of a locked buffer
 	struct W { int code; int w; };
 	std::vector<W> ws = {
 		{OP_ADD, 14}, {OP_PREPEND, 6}, {OP_PRINTF, 2}, {OP_EXPAND, 3}, {OP_RESERVE, 5}, {OP_IOVEC, 3}, {OP_ADD_BUFFER, 4}, {OP_PREPEND_BUFFER, 3},
@@ -1067,7 +1068,7 @@ static void generate(Plan &p, Rng &r) {
 	if (prop == "C16") { bump(OP_READ, 16); bump(OP_WRITE, 16); bump(OP_ADD_REF, 4); bump(OP_ADD_FILE, 3); bump(OP_RESERVE, 6); bump(OP_SEARCH, 0); bump(OP_SEARCH_EOL, 0); bump(OP_PTR, 0); }
 	int total = 0;
 	for (auto &x : ws) total += x.w;
-	int nops = prop == "C14" ? (int)r.range(3, 25) : (thorough ? (int)r.range(10, 150) : (int)r.range(5, 60));
+	int nops = (prop == "C14" || prop == "C08") ? (int)r.range(3, 25) : (thorough ? (int)r.range(10, 150) : (int)r.range(5, 60));
 	bool big = thorough && r.chance(0.2);
 	int flav = r.chance(0.4) ? (int)r.range(1, 3) : 0;
 	for (int i = 0; i < nops; i++) {
